@@ -27,6 +27,39 @@ PROPS["C16"] = dict(
     thorough=dict(shards=16, checks=4000),
 )
 
+PROPS["C14"] = dict(
+    pkg="props/c14", level="exploration", engine="E-model", design_ref="§4 C14",
+    technique="model-based PBT (rapid): call programs against a reference map with tombstones, flush round trip through a real table",
+    rule=("case = program of 0..60 (thorough 200) Add/Upsert/Delete/DeleteIfExists/Tombstone/Get/Contains/IsTombstoned/Size/"
+          "EstimatedSizeInBytes/iterate calls over <=10 adversarial keys (incl. empty key, 1 KiB key) with nil/empty/patterned values "
+          "and occasional nil keys, then Flush or FlushWithTombstones read back through NewSSTableReader; non-trivial = a tombstoned "
+          "key was re-added AND an absent key was deleted before the flush; distinct = distinct case JSON"),
+    level_text=("Every call result and error is compared with a reference map; the flushed table is read back and compared. "
+                "Exploration over generated call programs is the strongest level a call-history quantifier admits."),
+    level_note="the size-estimate check only demands 'no wrap below zero / within 2x live bytes + 64' because the property calls it an estimate",
+    assumptions=COMMON_ASSUME,
+    quick=dict(shards=16, checks=300),
+    thorough=dict(shards=16, checks=10000),
+)
+
+PROPS["C03"] = dict(
+    pkg="props/c03", level="exploration", engine="E-model", design_ref="§4 C03",
+    technique="model-based PBT (rapid): generated tables x writer/reader options vs sorted-map oracle, all loaders",
+    rule=("case = strictly ascending adversarial key set (0..60, thorough 0..400 keys; empty key, marker bytes, long shared prefixes, "
+          "fixed-width 4/20-byte sets for the map loaders, a last key that dominates the index) with nil/empty/patterned values up to "
+          "5000 bytes, written by the stream or skip-list writer under generated data/index compression, bloom sizing and write buffer, "
+          "then read through 1-3 generated reader configurations (slice, skip-list, map4, map20, disk loader; read buffer; hash-check options) "
+          "and probed with every key, its neighbours, below-minimum, above-maximum and all bound pairs; non-trivial = >=2 keys, >=1 absent probe "
+          "and >=1 range with both bounds strictly inside the key span; distinct = distinct case JSON"),
+    level_text=("Contains/Get/Scan/ScanStartingAt/ScanRange are compared in both directions with a sorted map for each generated table and "
+                "reader configuration; inputs and configurations are unbounded, so sampled exploration with an exact oracle is the level."),
+    level_note="map loaders are only exercised with keys and probes of exactly the mapper width (documented behaviour of MapBytes); comparator is bytes.Compare",
+    assumptions=COMMON_ASSUME,
+    require_labels=["loader=slice", "loader=skiplist", "loader=disk", "loader=map4", "loader=map20", "writer=simple", "writer=stream", "last-entry-dominates", "range-below-minimum"],
+    quick=dict(shards=16, checks=60),
+    thorough=dict(shards=16, checks=2000, timeout_s=3600),
+)
+
 NOT_APPLICABLE = {}
 
 
